@@ -276,6 +276,55 @@ func extraC01(r *Run) {
 				r.Violate(tp.name+"/content/response-altered-reused-destination", "each message a receiver obtains is equal to the message sent (a receive overwrites its destination)", sprintf("client re-using one message value: %d sent, %d received, first difference at %d", len(seq), len(clientSaw), at), c, "")
 			}
 		}
+		// large messages sent back to back: each must arrive intact although the next one is already being read
+		for i := 0; i < r.Budget(3, 12); i++ {
+			sizes := []int{80 << 10, 70 << 10, 66 << 10, 1 << 10, 64 << 10, 65 << 10}
+			var seq []*Msg
+			for j, n := range sizes {
+				p := make([]byte, n)
+				for k := range p {
+					p[k] = byte(j*31 + k%251 + i)
+				}
+				seq = append(seq, &Msg{Count: int32(j + 1), Payload: p})
+			}
+			svrL := &scriptServer{}
+			svrL.sstream = func(req *Msg, s grpchantesting.TestService_ServerStreamServer) error {
+				for _, x := range seq {
+					if err := s.Send(x); err != nil {
+						return err
+					}
+				}
+				return nil
+			}
+			chL, stopL := tp.mk(svrL)
+			cs, err := chL.NewStream(context.Background(), descSStream, mSStream)
+			c := map[string]interface{}{"transport": tp.name, "op": "large-back-to-back", "sizes": fmt.Sprint(sizes)}
+			if err != nil {
+				r.Violate(tp.name+"/content/stream-failed", "messages are delivered", err.Error(), c, "")
+				stopL()
+				continue
+			}
+			cs.SendMsg(&Msg{})
+			cs.CloseSend()
+			bad := -1
+			n := 0
+			for {
+				var m Msg
+				if err := cs.RecvMsg(&m); err != nil {
+					break
+				}
+				if n < len(seq) && bad < 0 && !proto.Equal(&m, seq[n]) {
+					bad = n
+				}
+				n++
+			}
+			stopL()
+			r.Eval(fmt.Sprint("large", tp.name, i), true)
+			r.Count("large-back-to-back:" + tp.name)
+			if bad >= 0 || n != len(seq) {
+				r.Violate(tp.name+"/content/large-stream-altered", "each message a receiver obtains is equal to the message sent, in order", sprintf("%d large messages sent back to back, %d received, first altered message: #%d", len(seq), n, bad), c, "")
+			}
+		}
 		// isolation: concurrent calls on one channel, every message tagged with its call
 		nCalls := r.Budget(8, 32)
 		var wg sync.WaitGroup
@@ -533,6 +582,25 @@ func extraC02(r *Run) {
 			}
 		}
 		_ = fullErr
+	}
+	// the same for unary calls: a successful reply whose body breaks off (transport error while reading it) at any offset,
+	// in particular at offset 0 and on a field boundary, where the bytes received so far decode as a valid, shorter message
+	{
+		full := marshalDet(&Msg{Count: 7, Payload: []byte("payload-bytes"), Headers: map[string][]byte{"k": []byte("v")}, DelayMillis: 3})
+		hdr := http.Header{"Content-Type": {httpgrpc.UnaryRpcContentType_V1}, "Content-Length": {strconv.Itoa(len(full))}}
+		u, _ := url.Parse("http://mem.test/")
+		for k := 0; k < len(full); k++ {
+			rt := &replayTransport{code: 200, hdr: hdr, body: full[:k], endErr: errAbrupt}
+			out := &Msg{}
+			err := (&httpgrpc.Channel{Transport: rt, BaseURL: u}).Invoke(context.Background(), mUnary, &Msg{}, out)
+			r.Eval(fmt.Sprint("cut-unary", k), true)
+			r.Count("truncation:unary")
+			if err == nil {
+				r.Violate("http/truncation/unary/reported-as-success", "a response that is lost, truncated or cannot be decoded is always reported as an error",
+					sprintf("unary reply of %d bytes whose body read fails after %d bytes: Invoke returned nil (decoded count=%d, %d payload bytes)", len(full), k, out.Count, len(out.Payload)),
+					map[string]interface{}{"transport": "http", "kind": "unary", "body_hex": hexOrDash(full), "cut": k, "abrupt": true}, "ok")
+			}
+		}
 	}
 	ref := refTransport()
 	for i := 0; i < r.Budget(80, 2500); i++ {
